@@ -196,13 +196,17 @@ theorem C05_run_model_exact (f : Nat) (i i' : Inst) (es : List Entry) (h : runMo
   exact ⟨k, h1, h2, h3, by rw [h1, stepN_steps]⟩
 
 /-- `run_model` is nothing but `k` ordinary `step()` calls made one after the other: the final state is that of `k` calls, the
-    records it leaves are the records of those `k` calls in order (the j-th call's bodies see `steps + j`), `running` was true
+    records it leaves are the records of those `k` calls in order, call by call (the bodies of call number `j`, counted from 0, all see
+    `steps + j + 1`), `running` was true
     before each call and is false after the last, and the counter advanced by exactly `k`. -/
 theorem C05_run_model_is_k_step_calls (f : Nat) (i i' : Inst) (es : List Entry) (h : runModel f i = some (i', es)) :
     ∃ k, i' = stepN k i ∧ es = entriesN k i ∧ i'.running = false ∧ (∀ j, j < k → (stepN j i).running = true) ∧
-      i'.steps = i.steps + k ∧ ∀ e ∈ es, i.steps + 1 ≤ e.steps ∧ e.steps ≤ i.steps + k := by
+      i'.steps = i.steps + k ∧ (∀ e ∈ es, i.steps + 1 ≤ e.steps ∧ e.steps ≤ i.steps + k) ∧
+      es = (List.range k).flatMap (fun j => (callStep (stepN j i) []).2.1) ∧
+      ∀ j, j < k → ∀ e ∈ (callStep (stepN j i) []).2.1, e.steps = i.steps + j + 1 := by
   obtain ⟨k, h1, h1e, h2, h3⟩ := runModel_entries f i i' es h
-  exact ⟨k, h1, h1e, h2, h3, by rw [h1, stepN_steps], by rw [h1e]; exact entriesN_steps k i⟩
+  exact ⟨k, h1, h1e, h2, h3, by rw [h1, stepN_steps], by rw [h1e]; exact entriesN_steps k i,
+    by rw [h1e]; exact entriesN_eq_flatMap k i, fun j _ => callStep_stepN_steps j i⟩
 
 example : runModel 10 (Inst.new [⟨true, false, false⟩] 3) =
     some (stepN 3 (Inst.new [⟨true, false, false⟩] 3), [⟨0, 1, []⟩, ⟨0, 2, []⟩, ⟨0, 3, []⟩]) := by decide
@@ -240,34 +244,45 @@ theorem C05_all_interleavings_count (ops : List Op) (hnr : ∀ op ∈ ops, op.is
       rw [this, h1]
       cases hs : op.isStepOn j <;> simp [hs] <;> omega
 
-/-- **The history of one model is its own operations** (all interleavings, `run_model` included): what instance `j` is after
-    any interleaving of `step` / `run_model` / re-arm / halt operations on any number of coexisting instances is what it
-    would be had only the operations on `j` been performed, in the same order — the operations on other models, however
-    many and wherever interleaved, are invisible to it (counter, `running`, stop rule and all). -/
-theorem C05_instance_history_is_its_own_ops (ops : List Op) (w : List Inst) (j : Nat) :
+/-- **The history of one model is its own operations** (all interleavings, `run_model` included; review 3, M17: only
+    histories in which every `run_model` call *returns* are spoken about — `allReturn`; a `run_model` that would not come back
+    is not counted as a no-op): in such a history, what instance `j` is at the end is what it would be had only the
+    operations on `j` been performed, in the same order — and in that shorter history every call returns, too.  The operations
+    on other models, however many and wherever interleaved, are invisible to it (counter, `running`, stop rule and all). -/
+theorem C05_instance_history_is_its_own_ops (ops : List Op) (w : List Inst) (j : Nat) (hret : allReturn w ops = true) :
+    allReturn w (ops.filter (fun op => op.target == j)) = true ∧
     (run w ops)[j]? = (run w (ops.filter (fun op => op.target == j)))[j]? := by
-  have key : ∀ (ops : List Op) (w w' : List Inst), w[j]? = w'[j]? →
+  have key : ∀ (ops : List Op) (w w' : List Inst), w[j]? = w'[j]? → allReturn w ops = true →
+      allReturn w' (ops.filter (fun op => op.target == j)) = true ∧
       (run w ops)[j]? = (run w' (ops.filter (fun op => op.target == j)))[j]? := by
     intro ops
     induction ops with
-    | nil => intro w w' h; simpa [run] using h
+    | nil => intro w w' h _; exact ⟨rfl, by simpa [run] using h⟩
     | cons op ops ih =>
-      intro w w' h
+      intro w w' h hr
+      simp only [allReturn, Bool.and_eq_true] at hr
       by_cases ht : op.target = j
       · have hf : (op :: ops).filter (fun op => op.target == j) = op :: ops.filter (fun op => op.target == j) := by
           simp [ht]
         rw [hf]
-        simp only [run, List.foldl_cons]
-        apply ih
         subst ht
-        exact apply_local w w' op h
+        have hstep := apply_local w w' op h
+        obtain ⟨h1, h2⟩ := ih (apply w op) (apply w' op) hstep hr.2
+        refine ⟨?_, ?_⟩
+        · simp only [allReturn, Bool.and_eq_true]
+          exact ⟨by rw [← returns_local w w' op h]; exact hr.1, h1⟩
+        · simpa only [run, List.foldl_cons] using h2
       · have hf : (op :: ops).filter (fun op => op.target == j) = ops.filter (fun op => op.target == j) := by
           simp [ht]
         rw [hf]
-        simp only [run, List.foldl_cons]
-        apply ih
-        rw [apply_frame w op j ht]; exact h
-  exact key ops w w rfl
+        have := ih (apply w op) w' (by rw [apply_frame w op j ht]; exact h) hr.2
+        simpa only [run, List.foldl_cons] using this
+  exact key ops w w rfl hret
+
+/-- a `run_model` on a model whose step never stops it does not return within any fuel given: such a history is not `allReturn` -/
+example : allReturn [Inst.new [⟨true, false, false⟩] 100] [.run 0 3] = false ∧
+    allReturn [Inst.new [⟨true, false, false⟩] 2, Inst.new [] 9] [.step 0 [], .step 1 [], .run 0 5, .step 1 [3], .halt 1, .step 0 []] = true := by
+  decide
 
 example : (run [Inst.new [⟨true, false, false⟩] 2, Inst.new [] 9] [.step 0 [], .step 1 [], .run 0 5, .step 1 [3], .halt 1, .step 0 []])[0]?.map
     (fun i => (i.steps, i.running)) = some (3, false) := by decide
